@@ -60,7 +60,7 @@ TIERS = {
     ),
     'thorough': dict(
         abstract=[dict(name='M8', M=8, ctor=2, maxT=8, windows=[1, 65, 0xD7FC, 0xFFFC, MAXU1 + 1 - 8]),
-                  dict(name='M10-prim', M=10, ctor=3, maxT=1, windows=[1, 0x2FFF, MAXU1 + 1 - 10])],
+                  dict(name='M10-prim', M=10, ctor=3, maxT=1, windows=[1, 0x2FFF, MAXU1 + 1 - 10], closure_max=4000)],
         unique_M=6,
         closure_depth=99,
         closure_max=12000,
@@ -1429,8 +1429,51 @@ def replay(rec: dict) -> int:
             print('VIOLATION property=C13 replay=(replayed)')
             return 1
         return 0
-    print('this case class (history / tables) is re-checked by running ./check C13 again')
-    return 1
+    if case.get('impl') == 'UnicodeSubset' and 'history' in case:
+        win = Win(case['W'], case['M'])
+        tup = lambda x: tuple(tup(y) for y in x) if isinstance(x, list) else x   # noqa: E731
+        canon_of: dict = {}
+        G['canon_of'] = canon_of
+        u = US()
+        kind = None
+        try:
+            for action, args in case['history']:
+                if action in ('Update', 'DiffUpdate', 'Ior', 'Isub', 'Iand', 'Ixor'):
+                    args = (frozenset(args[0]),)
+                    canon_of[args[0]] = tuple((a,) if (b == a + 1 and a not in win.wide) else (a, b)
+                                              for a, b in runs(args[0]))
+                else:
+                    args = tup(args)
+                G['cur_S'] = None
+                u, _ = apply_us(US, u, win, action, args, PRIMARY[action], canon_of, 0)
+            kind = observe_us(US, u, win, frozenset(case['S2']), tup(case['rep2']))[0]
+            raw = list(u.codepoints)
+        except Exception as e:
+            kind, raw = 'exception:' + type(e).__name__, repr(e)
+        print('observed :', dict(kind=kind, raw=raw))
+        if kind:
+            print('VIOLATION property=C13 replay=(replayed)')
+            return 1
+        return 0
+    if case.get('impl') == 'tables':
+        # re-export the tables of the working tree and let TLC / the sweep judge them again
+        chk2 = core.Check('C13', 'quick', 0)
+        chk2.known = []
+        try:
+            run_tables(chk2, TIERS['quick'])
+        finally:
+            import shutil
+            shutil.rmtree(chk2.scratch, ignore_errors=True)
+        want = rec.get('features', {})
+        again = [f for f in chk2.failures if f['features'].get('law') == want.get('law')
+                 and f['features'].get('names') == want.get('names')]
+        print('observed :', [f['observed'] for f in again][:3] or 'the law holds on the exported tables')
+        if again:
+            print('VIOLATION property=C13 replay=(replayed)')
+            return 1
+        return 0
+    print('unknown case class')
+    return 2
 
 
 def run(chk: core.Check) -> None:
@@ -1456,7 +1499,7 @@ def run(chk: core.Check) -> None:
     chk.coverage['configs'] = core.jsonable({k: v for k, v in conf.items()})
     run_unique(chk, conf['unique_M'])
     for ac in conf['abstract']:
-        run_abstract(chk, ac, conf['closure_depth'], conf['closure_max'])
+        run_abstract(chk, ac, conf['closure_depth'], ac.get('closure_max', conf['closure_max']))
     run_cc(chk, conf['cc'])
     run_impl(chk, conf['impl'])
     run_tables(chk, conf)
